@@ -44,6 +44,7 @@ TLayout == /\ Is("Layout") /\ UNCHANGED <<lay, bits, cfg, bin, nrm, gen, act>>
            /\ Soft("Resolvable", Resolvable(L), 0)
            /\ Soft("FieldNamesUnique", FieldNamesUnique(L), IF L.dupfield = <<>> THEN 0 ELSE L.dupfield[1])
            /\ Soft("FieldsCover", FieldsCover(L), IF L.uncovered = <<>> THEN 0 ELSE L.uncovered[1])
+           /\ (("parts" \in DOMAIN E) => Soft("RegisterMap", RegisterMapHolds(E.parts), MapWitness(E.parts)))
            /\ Adv
 TNewObject == /\ Is("NewObject")
               /\ IF l = 1 THEN UNCHANGED <<lay, bits, cfg, bin, nrm, gen, act>> ELSE NewObject
